@@ -5,11 +5,16 @@ HERE = os.path.dirname(os.path.dirname(os.path.abspath(__file__)))
 S = os.path.join(HERE, "seeded")
 res = json.load(open(os.path.join(S, "RESULTS.json")))
 rows = []
+retired = []
 for name in sorted(os.listdir(S)):
     mp = os.path.join(S, name, "meta.json")
     if not os.path.exists(mp):
         continue
     m = json.load(open(mp))
+    if m.get("retired"):
+        retired.append(name)
+        rows.append("| %s | %s | %s | retired: %s |" % (name, re.sub(r"\s+", " ", m.get("what_changed", ""))[:160].replace("|", "/"), "", re.sub(r"\s+", " ", m["retired"])[:200].replace("|", "/")))
+        continue
     props = [m["property"]] + m.get("also_run", [])
     verdicts = []
     for p in props:
@@ -23,11 +28,11 @@ for name in sorted(os.listdir(S)):
     need = re.sub(r"\s+", " ", m.get("needs_to_manifest", ""))[:130].replace("|", "/")
     rows.append("| %s | %s | %s | %s |" % (name, what, need, "; ".join(verdicts)))
 nd = sum(1 for k, v in res.items() if v["verdict"] == "DETECTED")
-names = {k.split(":")[0] for k in res}
-caught = {k.split(":")[0] for k, v in res.items() if v["verdict"] == "DETECTED"}
+names = {k.split(":")[0] for k in res if k.split(":")[0] not in retired and os.path.isdir(os.path.join(S, k.split(":")[0]))}
+caught = {k.split(":")[0] for k, v in res.items() if v["verdict"] == "DETECTED"} & names
 table = ["| seed | change (abridged) | needs | check verdict (quick tier) |", "|---|---|---|---|"] + rows
-text = ("%d seeded changes, %d detected by the quick tier of at least one owning check, %d not detected: %s.\n\n" %
-        (len(names), len(caught), len(names - caught), ", ".join(sorted(names - caught)) or "none")) + "\n".join(table) + "\n"
+text = ("%d live seeded changes (%d more retired: %s), %d detected by the quick tier of at least one owning check, %d not detected: %s.\n\n" %
+        (len(names), len(retired), ", ".join(retired) or "none", len(caught), len(names - caught), ", ".join(sorted(names - caught)) or "none")) + "\n".join(table) + "\n"
 p = os.path.join(HERE, "DESIGN.md")
 s = open(p).read()
 a, b = "<!-- SEED-MATRIX-BEGIN -->", "<!-- SEED-MATRIX-END -->"
